@@ -234,9 +234,16 @@ impl Drop for Guarded {
     }
 }
 
+thread_local! {
+    static GUARD_DEPTH: std::cell::Cell<usize> = std::cell::Cell::new(0);
+}
+
 /// Run `f`, turning a panic into `Err(message)`.
 pub fn guard<T>(f: impl FnOnce() -> T) -> Result<T, String> {
-    match std::panic::catch_unwind(std::panic::AssertUnwindSafe(f)) {
+    GUARD_DEPTH.with(|d| d.set(d.get() + 1));
+    let r = std::panic::catch_unwind(std::panic::AssertUnwindSafe(f));
+    GUARD_DEPTH.with(|d| d.set(d.get() - 1));
+    match r {
         Ok(v) => Ok(v),
         Err(e) => {
             let msg = if let Some(s) = e.downcast_ref::<&str>() {
@@ -251,8 +258,23 @@ pub fn guard<T>(f: impl FnOnce() -> T) -> Result<T, String> {
     }
 }
 
+/// Panics caught by `guard` are data and stay silent; a panic outside any `guard` kills the process, and its
+/// location is printed in the standard format so that the driver can tell a panic raised inside the crate under
+/// test (an observation) from one of the harness itself (a tool error).
 pub fn quiet_panics() {
-    std::panic::set_hook(Box::new(|_| {}));
+    std::panic::set_hook(Box::new(|info| {
+        if GUARD_DEPTH.with(|d| d.get()) == 0 {
+            let loc = info.location().map(|l| format!("{}:{}:{}", l.file(), l.line(), l.column())).unwrap_or_default();
+            let msg = if let Some(s) = info.payload().downcast_ref::<&str>() {
+                s.to_string()
+            } else if let Some(s) = info.payload().downcast_ref::<String>() {
+                s.clone()
+            } else {
+                "panic".to_string()
+            };
+            eprintln!("thread '{}' panicked at {}:\n{}", std::thread::current().name().unwrap_or("?"), loc, msg);
+        }
+    }));
 }
 
 pub fn opt_to_i(r: Option<usize>) -> i64 {
